@@ -1,5 +1,5 @@
 (* Solver::findRoot (solve/solver.cpp), both overloads, control flow exactly as
-   written (after the two fixes: non-finite step, gas = 0).  The evaluator is
+   written (after the three fixes: non-finite step, gas = 0, a step that underflowed to zero).  The evaluator is
    abstract: [value] and [gradient] are functions of the evaluator's current
    variable assignment (position and tape are fixed during a call).  Parametric
    in the number type. *)
@@ -14,6 +14,7 @@ Section Solver.
     s_ltb : num -> num -> bool;                         (* <  *)
     s_geb : num -> num -> bool;                         (* >= *)
     s_isfinite : num -> bool;
+    s_iszero : num -> bool;                             (* step == 0 *)
     s_add : num -> num -> num; s_sub : num -> num -> num;
     s_mul : num -> num -> num; s_div : num -> num -> num;
     s_sq : num -> num;                                  (* powf(x, 2.0f) *)
@@ -44,7 +45,7 @@ Section Solver.
 
   Inductive ls_result :=
   | LS_accept (ev vars : assign) (r : num) (converged : bool)
-  | LS_giveup                       (* non-finite step *)
+  | LS_giveup (ev : assign)         (* non-finite or zero step: evaluator restored to [vars] *)
   | LS_out_of_fuel.
 
   (* the backtracking loop  for (step = r / slope; true; step /= 2) *)
@@ -52,7 +53,8 @@ Section Solver.
     match fuel with
     | 0 => LS_out_of_fuel
     | S f =>
-        if negb (s_isfinite SO step) then LS_giveup
+        (* "if (!std::isfinite(step) || step == 0) { for (v : vars) e.setVar(v.first, v.second); ... }" *)
+        if negb (s_isfinite SO step) || s_iszero SO step then LS_giveup (set_all ev vars)
         else
           let tv := trial vars ds step in
           let ev' := set_all ev tv in
@@ -90,7 +92,7 @@ Section Solver.
                 let slope := fold_left (fun acc p => s_add SO acc (s_sq SO (snd p))) ds' (s_zero SO) in
                 match line_search lsfuel ev vars ds' r slope (s_div SO r slope) with
                 | LS_out_of_fuel => OutOfFuel
-                | LS_giveup => Done r vars ev (S nevals)
+                | LS_giveup ev' => Done r vars ev' (S nevals)
                 | LS_accept ev' vars' r' conv => outer f lsfuel g ev' vars' ds' r' conv (S nevals)
                 end
         end
